@@ -1,0 +1,74 @@
+//go:build verif
+// +build verif
+
+package json
+
+import (
+	"strings"
+	"unsafe"
+
+	"github.com/goccy/go-json/internal/runtime"
+	"github.com/goccy/go-json/internal/verifhook"
+)
+
+// Entry points of the external verification harness (build tag verif only).
+// The harness module cannot import internal packages, so the hook table of
+// internal/verifhook is re-exported here.
+
+type VerifHooks struct {
+	OnPoint      func(id int, addr unsafe.Pointer, write bool)
+	OnSlot       func(base uintptr, idx uint32, store bool)
+	OnSlotRegion func(data unsafe.Pointer, n int)
+	OnEncBind    func(typeptr uintptr, setType unsafe.Pointer)
+	OnDecBind    func(index int, typeptr uintptr)
+	ExactPtrs    bool
+}
+
+func VerifSetHooks(h VerifHooks) {
+	verifhook.OnPoint = h.OnPoint
+	verifhook.OnSlot = h.OnSlot
+	verifhook.OnSlotRegion = h.OnSlotRegion
+	verifhook.OnEncBind = h.OnEncBind
+	verifhook.OnDecBind = h.OnDecBind
+	verifhook.Exact = h.ExactPtrs
+}
+
+func VerifSetOnPoint(f func(id int, addr unsafe.Pointer, write bool)) { verifhook.OnPoint = f }
+
+// VerifResetCaches empties every type cache of the encoder and the decoder.
+func VerifResetCaches() {
+	for _, f := range verifhook.Resetters {
+		f()
+	}
+}
+
+// VerifDumpState describes the type caches in a canonical form.
+func VerifDumpState() string {
+	var parts []string
+	for _, f := range verifhook.Dumpers {
+		parts = append(parts, f())
+	}
+	return strings.Join(parts, " ")
+}
+
+// VerifDescribe describes one pooled library object in a canonical form.
+func VerifDescribe(v interface{}) string {
+	for _, f := range verifhook.Describers {
+		if s, ok := f(v); ok {
+			return s
+		}
+	}
+	return "?"
+}
+
+func VerifTypeAddr() (base, max, rng, shift uintptr) {
+	t := runtime.AnalyzeTypeAddr()
+	if t == nil {
+		return 0, 0, 0, 0
+	}
+	return t.BaseTypeAddr, t.MaxTypeAddr, t.AddrRange, t.AddrShift
+}
+
+func VerifTypePtr(v interface{}) uintptr {
+	return uintptr(unsafe.Pointer((*emptyInterface)(unsafe.Pointer(&v)).typ))
+}
